@@ -68,6 +68,7 @@ Resp == /\ l <= Len(H) /\ H[l].k = "resp" /\ H[l].op \in Ops
                    [] pend[i].kind = "isany" -> pend[i].st = "lin" /\ pend[i].any = H[l].any
                    [] pend[i].kind = "rpan" -> pend[i].st = "lin" /\ pend[i].any = H[l].removed   \* true exactly when it found the pipeline
                    [] pend[i].kind = "nprobe" -> H[l].res = (CASE nst[pend[i].ver] = "live" -> "inuse" [] nst[pend[i].ver] = "idle" -> "ok" [] OTHER -> "notfound")
+                   [] pend[i].kind = "sprobe" -> H[l].res = (IF \E p \in PIDs : slots[p] # 0 THEN "inuse" ELSE "ok")   \* a node shared by all pipelines
                    [] OTHER -> pend[i].st = "lin"
               /\ nst' = IF pend[i].kind = "nprobe" /\ nst[pend[i].ver] = "idle" THEN [nst EXCEPT ![pend[i].ver] = "gone"] ELSE nst
               /\ pend' = RemoveAt(pend, i)
